@@ -212,6 +212,38 @@ func replaySeq(c *fw.Ctx, id string, sc seqCase, tag func(*bt.Op) string) (strin
 	return fmt.Sprintf("%s:%s:%s:%s", id, sc.Engine, cl, t), m
 }
 
+// multiStepOp: a request that applies several steps in memory before it can be rejected.
+func multiStepOp(o *bt.Op) bool {
+	switch o.Kind {
+	case "MutateRow":
+		return len(o.Muts) >= 2
+	case "MutateRows":
+		return true
+	case "CheckAndMutate":
+		return len(o.TrueM)+len(o.FalseM) >= 2
+	case "RMW":
+		return len(o.Rules) >= 2
+	case "ModifyFamilies":
+		return len(o.Mods) >= 2
+	}
+	return false
+}
+
+// destructiveOp: requests that remove rows or whole tables wholesale.
+func destructiveOp(o *bt.Op) bool {
+	switch o.Kind {
+	case "DropRowRange", "DeleteTable", "GC":
+		return true
+	case "ModifyFamilies":
+		for _, m := range o.Mods {
+			if m.Op == "drop" {
+				return true
+			}
+		}
+	}
+	return false
+}
+
 func (b *btSeq) ops(seq []int) []bt.Op {
 	out := make([]bt.Op, len(seq))
 	for i, k := range seq {
@@ -280,10 +312,19 @@ func (b *btSeq) Run(c *fw.Ctx) {
 					c.State(h)
 				}
 				if b.Dedup {
-					if seen[h] {
+					// two histories are merged only if model state and raw dump agree AND neither ended in a request
+					// that destroys rows wholesale: state the dump cannot show (an engine-level cache, a handle to a
+					// replaced database) is typically left behind by exactly those, and it would be merged away
+					dk := h
+					if destructiveOp(&b.Alphabet[k]) || (lastRunResp.Code != "OK" && lastRunResp.Code != "" && multiStepOp(&b.Alphabet[k])) {
+						// ... or in a REJECTED multi-step request: what it applied in memory before it failed must be gone, and only a
+						// later request on the same row can show that it is not
+						dk = fw.Hash(fmt.Sprint(h), "after", b.Alphabet[k].String(), bt.OpsString(ops[max(0, len(ops)-2):len(ops)-1]))
+					}
+					if seen[dk] {
 						continue
 					}
-					seen[h] = true
+					seen[dk] = true
 				}
 				if rec && len(ns) <= 2 {
 					c.Sample(map[string]interface{}{"engine": b.Engine, "sequence": bt.OpsString(ops)})
